@@ -45,6 +45,12 @@ def apply_edits(d, edits):
     for rel, old, new in edits:
         path = os.path.join(d, rel)
         s = open(path).read()
+        if old.startswith("ALL:"):
+            old = old[4:]
+            if s.count(old) < 1:
+                return f"edit anchor does not occur in {rel}: {old[:60]!r}"
+            open(path, "w").write(s.replace(old, new))
+            continue
         if s.count(old) != 1:
             return f"edit anchor occurs {s.count(old)} times in {rel}: {old[:60]!r}"
         open(path, "w").write(s.replace(old, new))
@@ -60,7 +66,9 @@ def one(job):
             if err:
                 return (kind, name, prop, "BROKEN-VARIANT", err)
         else:  # seeded patch
-            r = subprocess.run(["patch", "-p1", "-s", "-i", payload], cwd=d, capture_output=True, text=True)
+            # generated .c files are not part of the scratch copy (the checks read .py / .pyx only)
+            r = subprocess.run(["git", "apply", "--exclude=*.c", "-p1", payload], cwd=d, capture_output=True, text=True,
+                               env=dict(os.environ, GIT_CEILING_DIRECTORIES="/tmp", GIT_DIR="/nonexistent"))
             if r.returncode != 0:
                 return (kind, name, prop, "BROKEN-VARIANT", (r.stdout + r.stderr)[:200])
         rc, rules, out = run_check(d, prop)
